@@ -38,6 +38,9 @@ pub enum Plan {
     Splits(Vec<usize>),
     /// composition of the stream length encoded as a bit mask of cut positions (bit i set = cut after byte i+1)
     Composition(u32),
+    /// a split at this offset, and the read call that would deliver the byte after it fails once with
+    /// ErrorKind::Interrupted (a signal arrived): by the contract of std::io::Read the call is simply made again
+    InterruptedAt(usize),
 }
 
 #[derive(Clone, Debug, Serialize)]
@@ -84,6 +87,7 @@ fn plan_of(p: &Plan, len: usize) -> ReadPlan {
         Plan::All => ReadPlan::All,
         Plan::Cap(k) => ReadPlan::Cap(*k),
         Plan::Splits(v) => ReadPlan::Splits(v.clone()),
+        Plan::InterruptedAt(o) => ReadPlan::Splits(vec![*o]),
         Plan::Composition(mask) => {
             let mut v = vec![];
             for i in 0..len.saturating_sub(1) {
@@ -210,6 +214,21 @@ impl Prop for C13 {
                 cs.push(Case { frames: vec![big.clone(), SENT_FP, SENT_TPKT], plan: Plan::Cap(k), via_x224: false });
             }
         }
+        // D3: an interrupted read call at every offset of a few three-frame streams
+        for frames in [vec![FrameSpec::Tpkt(10), SENT_FP, SENT_TPKT], vec![FrameSpec::FpShort(0x80, 9), SENT_TPKT, SENT_FP], vec![FrameSpec::FpLong(0x40, 300), FrameSpec::Tpkt(4), FrameSpec::FpShort(0, 2)]] {
+            let len = stream_of(&Case { frames: frames.clone(), plan: Plan::All, via_x224: false }).len();
+            for o in 0..len {
+                cs.push(Case { frames: frames.clone(), plan: Plan::InterruptedAt(o), via_x224: false });
+            }
+        }
+        // D4: payloads of exactly 4096, 8192, 16384, 32768 bytes and their neighbours, whole and in pieces
+        for payload in [4095usize, 4096, 4097, 8192, 16383, 16384, 16385, 32768, 49152, 65531] {
+            for big in [FrameSpec::Tpkt((payload + 4) as u16), FrameSpec::FpLong(0, (payload + 3).min(0x7fff) as u16)] {
+                for plan in [Plan::All, Plan::Cap(1460), Plan::Cap(4096), Plan::Cap(16384)] {
+                    cs.push(Case { frames: vec![big.clone(), SENT_FP, SENT_TPKT], plan, via_x224: false });
+                }
+            }
+        }
         // E2: through x224::Client::read, fast-path frames with and without payload between slow-path frames
         for fp in [FrameSpec::FpShort(0x00, 2), FrameSpec::FpShort(0x80, 2), FrameSpec::FpLong(0x40, 3), FrameSpec::FpShort(0x00, 3), FrameSpec::FpLong(0x00, 4)] {
             for plan in [Plan::All, Plan::Cap(1)] {
@@ -253,7 +272,7 @@ impl Prop for C13 {
         json!({"idx": idx, "case": c, "stream_len": stream_of(c).len()})
     }
     fn rule(&self) -> String {
-        "cases = (three-frame stream, read schedule); streams enumerate every TPKT length field 0..65535, every short fast-path length x every first byte, every 15-bit long-form length; schedules enumerate caps {1,2,3,4,5,7,1500}, every single split offset, all pairs of splits inside the first two headers, and all 2^(n-1) compositions of short streams; frames of 4100..65535 bytes delivered 1, 2, 3 or 7 bytes at a time; streams read through x224::Client::read with fast-path frames with and without payload before, between and after slow-path frames. Additionally 14 full real conversations over TLS (NLA on/off, with a reactivation, inputs and shutdown) are run with the transport delivering at most k bytes per read for k in {1,2,3,5,7,16,1000}, and 54 more in which the server cuts every message into TLS records of at most {1,2,3,4,5,7,11,16,100} plaintext bytes (a read of the decrypted stream returns at most the rest of one record) over a transport delivering everything / 1 / 7 bytes per read. Non-trivial: first frame has an empty payload, or declares a length below its own header, or at least one split point falls inside a frame header.".into()
+        "cases = (three-frame stream, read schedule); streams enumerate every TPKT length field 0..65535, every short fast-path length x every first byte, every 15-bit long-form length; schedules enumerate caps {1,2,3,4,5,7,1500}, every single split offset, all pairs of splits inside the first two headers, and all 2^(n-1) compositions of short streams; frames of 4100..65535 bytes delivered 1, 2, 3 or 7 bytes at a time; payloads of exactly 4096 / 8192 / 16384 / 32768 / 49152 bytes and their neighbours whole and in 1460 / 4096 / 16384-byte pieces; one read call failing with ErrorKind::Interrupted at every offset of three streams (the frames must come out all the same); a slow-path frame whose X.224 header is refused is followed by valid frames that must still be returned; streams read through x224::Client::read with fast-path frames with and without payload before, between and after slow-path frames. Additionally 14 full real conversations over TLS (NLA on/off, with a reactivation, inputs and shutdown) are run with the transport delivering at most k bytes per read for k in {1,2,3,5,7,16,1000}, and 54 more in which the server cuts every message into TLS records of at most {1,2,3,4,5,7,11,16,100} plaintext bytes (a read of the decrypted stream returns at most the rest of one record) over a transport delivering everything / 1 / 7 bytes per read. Non-trivial: first frame has an empty payload, or declares a length below its own header, or at least one split point falls inside a frame header.".into()
     }
     fn assumptions(&self) -> Vec<String> {
         vec![
@@ -301,6 +320,9 @@ impl Prop for C13 {
         let stream = stream_of(&c);
         let link = MemLink::scripted(&stream);
         link.sh.borrow_mut().read_plan = plan_of(&c.plan, stream.len());
+        if let Plan::InterruptedAt(o) = c.plan {
+            link.sh.borrow_mut().read_err_once_at = Some((o, std::io::ErrorKind::Interrupted));
+        }
         let sh = link.sh.clone();
         // reference expectation
         let mut expect = vec![];
@@ -392,7 +414,11 @@ impl Prop for C13 {
                 }
             }
             match got {
-                None if want_err => return Outcome::pass("x224-header-rejected", true),
+                // the TPKT frame was consumed whole: the frames behind it must still come out right
+                None if want_err => {
+                    nontrivial = true;
+                    continue;
+                }
                 None => {
                     return Outcome::fail(
                         "mismatch",
